@@ -1061,16 +1061,6 @@ static int write_text(void *context, UChar *text, int32_t length, int fold, int 
         for (tok = text, next_tok = tok; tok != NULL; tok = next_tok) {
             int protect = CIF_FALSE;
 
-            /* special handling is required for empty lines */
-            if (*next_tok == UCHAR_NL) {
-                if (u_fputc(UCHAR_NL, CONTEXT_UFILE(context)) != UCHAR_NL) {
-                    return CIF_ERROR;
-                } else {
-                    next_tok += 1;
-                    continue;
-                }
-            }
-
             /* find the end of this line, and determine whether it needs to be protected */
             for (; ; next_tok += 1) {
                 switch (*next_tok) {
@@ -1099,6 +1089,12 @@ static int write_text(void *context, UChar *text, int32_t length, int fold, int 
 
             /* each folded segment, until the line is consumed */
             write_lines:
+            if (*tok == 0) {
+                /* an empty line (possibly the last one, after a trailing newline): just the terminator and any prefix */
+                if (u_fprintf(CONTEXT_UFILE(context), "\n%s", prefix_text) != (1 + prefix_chars)) {
+                    return CIF_ERROR;
+                }
+            }
             while (*tok != 0) {
                 int len = fold_line(tok, fold, target_length, FOLDING_WINDOW, prefix);
 
